@@ -1,5 +1,5 @@
 SPECIFICATION BSpec
 CONSTANT Shapes <- ThoroughShapes
-INVARIANT AgreeInv
+INVARIANT AgreeInvAll
 CONSTRAINT DepsExport
 CHECK_DEADLOCK FALSE
